@@ -724,6 +724,9 @@ def run_solution_case(ctx, out, comps, w_max, rng):
 
 EPS = 2.0 ** -20      # < w_resolution, exactly representable next to the dyadic pool
 D1, D2 = 7 / 8192, 9 / 8192     # 1, 1+D1, 1+D2: D1 and D2-D1 are within the resolution, D2 is not — a chain
+# high absolute frequencies a few rad/s apart (beat set-ups): far outside the absolute resolution, far inside any
+# tolerance that is relative to the frequency (added after seeded change C09-5A, np.isclose with its default rtol)
+HIGH_W = [2.0 ** 17, 2.0 ** 17 + 0.5, 2.0 ** 17 + 2.0, 2.0 ** 17 - 1.0, 2.0 ** 20, 2.0 ** 20 + 1.0, 2.0 ** 20 + 0.25, 2.0 ** 14 + 0.125]
 
 CORPUS = [
     # DESIGN §6: sources at w and w + 1e-9
@@ -764,13 +767,15 @@ def run(ctx, out):
     for k in range(300 if ctx.quick else 5000):
         r = rng.random()
         pool = DYADIC_W + ([1.0 + EPS, 2.0 + EPS, 3.0 - EPS] if r < 0.3 else [1.0 + D1, 1.0 + D2, 1.0 + D1, 1.0 + D2] if r < 0.4 else [])
-        comps = random_circuit(rng, w_pool=pool)
+        if 0.4 <= r < 0.55: pool = HIGH_W + [1.0]
+        comps = random_circuit(rng, w_pool=pool, kinds=[k_ for k_ in SOURCES if k_ not in ('Vper', 'Iper')] if 0.4 <= r < 0.55 else SOURCES)
         # (a periodic source with fundamental w = 0 is rejected at construction since fix 149a545 — property C19
         #  judges that; it is no valid input of C09 any more)
         if rng.random() < 0.1:
             comps.insert(0, dict(kind='Vcx', id='Vcx', nodes=['n0', 'x'], v=complex(1, 1)))
             comps.insert(0, dict(kind='R', id='Rx', nodes=['x', 'n0'], v=1.0))
         w_max = rng.choice([0.0, -1.0, 1.0, 2.0, 3.0, 4.5, 6.0, 7.75, 9.0, 12.0, 0.25])
+        if 0.4 <= r < 0.55: w_max = rng.choice([2.0 ** 21, 2.0 ** 17 + 1.0, 1.0]); out.count('freqs_high_close')
         check_freqs(ctx, out, comps, w_max, True)
     # non-dyadic frequencies (tolerance tier)
     for k in range(60 if ctx.quick else 1000):
@@ -782,8 +787,10 @@ def run(ctx, out):
         if ctx.time_left() < 20: out.notes.append(f'stopped after {k} solution cases (budget)'); break
         r = rng.random()
         pool = DYADIC_W + ([1.0 + EPS, 2.0 + EPS] if r < 0.2 else [1.0 + D1, 1.0 + D2, 1.0 + D1, 1.0 + D2, 1.0] if r < 0.3 else [])
-        comps = random_circuit(rng, w_pool=pool)
-        run_solution_case(ctx, out, comps, rng.choice([0.0, 2.0, 4.5, 6.0]), rng)
+        hi = 0.3 <= r < 0.42
+        if hi: pool = HIGH_W[:4]; out.count('solution_high_close')
+        comps = random_circuit(rng, w_pool=pool, kinds=['Vac', 'Iac', 'Vdc', 'Vac', 'Iac'] if hi else SOURCES, n_src=rng.choice([2, 3]) if hi else None)
+        run_solution_case(ctx, out, comps, 2.0 ** 21 if hi else rng.choice([0.0, 2.0, 4.5, 6.0]), rng)
     # harmonics of periodic sources with non-dyadic fundamentals, ≥ 50 harmonics each
     FUND = [2 * math.pi * 50, 2 * math.pi * 60, 0.7, 0.1, 0.3, 1 / 3, 1e3 * math.pi, 2.0, 0.75]
     rngh = ctx.rng('harmonics')
